@@ -9,7 +9,8 @@ ASSUMPTIONS = ASSUME_SESSION
 RULE = ("tame and app sessions with failing setups (before / after the base method), screens shown several times and at several modal depths, closes from refresh / show_all, "
         "rejected lines; oracle: per screen - no setup after a successful one, setup before the first refresh, each show directly preceded (among that screen's events of the "
         "same activation) by a refresh with the entry's arguments, no refresh/show/prompt after a failed setup until the next setup, closed() fires exactly when a close pops "
-        "the entry and never inside replace; non-trivial = a screen shown >= 2 times or a failed setup")
+        "the entry and never inside replace; non-trivial = a screen shown >= 2 times or a failed setup"
+        ' Later rounds: one screen object on the stack twice with equal arguments whose upper entry closes / replaces itself from refresh(); oracle: the entry drawn is the entry that was refreshed, by identity.')
 
 
 def gen_over_itself(rnd):
